@@ -908,6 +908,23 @@ class RefModel:
         except Exception:  # noqa: BLE001
             return False
 
+    def trig_inside_relational(self, names=None) -> bool:
+        """does an assignment (of `names` and what they depend on; default: any) compare a sin / cos / tan of something with something?
+        (sympy.simplify "solves" such an inequality for the innermost symbol over ONE period: cos(t) <= 0.25 becomes
+        1.318 <= t <= 2 pi - 1.318)"""
+        todo, seen = list(names if names is not None else self.assigns), set()
+        while todo:
+            n = todo.pop()
+            if n in seen or n not in self.assigns:
+                continue
+            seen.add(n)
+            a = self.assigns[n]
+            if _contains(a.ast, lambda nd: nd[0] == "call" and nd[1] in ("Lt", "Gt", "Le", "Ge")
+                         and any(_contains(x, lambda y: y[0] == "call" and y[1] in ("sin", "cos", "tan")) for x in nd[2])):
+                return True
+            todo.extend(a.deps)
+        return False
+
     def zero_power_base(self, name, t, states: dict, params: dict) -> bool:
         """does the expression of `name` (through the intermediates it uses) contain a power whose base evaluates to exactly 0 at this
         point?  (sympy differentiates b**e as b**e * (e' log b + e b'/b): 0 * inf at such a point)"""
